@@ -31,7 +31,7 @@ PAIRS = [(o, r) for o in range(-6, 6) for r in range(-6, 6) if o % 6 != r % 6]
 def cells(tier, seed):
     rnd = core.rng_for(seed, PROP, tier)
     out = []
-    reps = 4 if tier == 'quick' else 100
+    reps = 4 if tier == 'quick' else 600
     lay = list(PAIRS)
     rnd.shuffle(lay)
     k = 0
